@@ -54,7 +54,23 @@ def gen_box(r, out):
     o, ind = leaves[min(len(leaves) - 1, int(abs(r.gauss(0, 0.35)) * len(leaves)))]
     h = Fraction(1, 2 ** o["level"])
     centre = [o["centre"][k] + (((ind >> k) & 1) - Fraction(1, 2)) * h for k in range(3)]
-    kind = r.choice(["tiny", "tiny", "small", "medium", "large", "edge"])
+    kind = r.choice(["tiny", "tiny", "small", "medium", "large", "edge", "offcentre", "offcentre"])
+    if kind == "offcentre":
+        # extents strictly between two powers of 1/2 on all three axes, placed off the cube lattice:
+        # the box then straddles three cubes of the next finer level (wrong cube levels show up here)
+        preds = []
+        k = r.randint(1, max(1, out["levelmin"] - 1))
+        ext = Fraction(r.randint(9, 15), 16) * Fraction(1, 2 ** k) if r.random() < 0.8 else Fraction(1, 2 ** k)
+        for ax in range(3):
+            lo = Fraction(r.randint(1, 14), 16) * (1 - ext)
+            hi = lo + ext * Fraction(r.randint(12, 16), 16)
+            n = 2 ** lm
+            if not any(lo < Fraction(2 * i + 1, 2 * n) < hi for i in range(n)):
+                hi = lo + 2 * fine
+            name = "position_" + "xyz"[ax]
+            preds.append({"var": name, "op": "gt", "value": lo * box})
+            preds.append({"var": name, "op": "lt", "value": hi * box})
+        return preds, kind
     half = {"tiny": Fraction(3, 5), "small": Fraction(5, 4), "medium": Fraction(5, 2), "large": Fraction(8), "edge": Fraction(3, 2)}[kind] * fine
     axes = r.sample([0, 1, 2], r.choice([1, 2, 3, 3]))
     preds = []
@@ -134,13 +150,31 @@ def run(ctx):
             out_.violations.append({"what": f"_hilbert3d{c} = {ki} but the reference curve gives {ks}", "case": {"xyzb": list(c)},
                                     "call_site": "_hilbert3d", "input_class": "key"})
             break
-    for i in range(n):
-        out, mode = gen_hilbert_output(r, max_octs=60 if ctx.tier == "quick" else 150)
+    extra_search = 0
+    i = -1
+    while True:
+        i += 1
+        if i >= n + extra_search:
+            break
+        if i == n - 1 and out_.disagreements and not out_.violations and extra_search == 0:
+            # the correspondence broke but no Spec violation yet: widen the search (targeted lanes, more cases)
+            extra_search = 120 if ctx.tier == "quick" else 600
+            out_.extra["search"] = f"{extra_search} additional targeted cases (off-centre three-axis boxes, levelmin 3, 24-64 cpus) against the Spec"
+        targeted = i >= n or (i % 3 == 2)
+        if targeted:
+            out, mode = gen_hilbert_output(r, ncpu=r.choice([24, 32, 48, 64]), levelmin=3, levelmax=4, max_octs=90, bk_mode=r.choice(["random", "equal"]))
+        else:
+            out, mode = gen_hilbert_output(r, max_octs=60 if ctx.tier == "quick" else 150)
+        if out_.violations and i >= n:
+            break
         if i % 10 == 9:
             out["ordering"] = "bisection"
         preds, kind = gen_box(r, out)
+        if targeted:
+            while kind != "offcentre":
+                preds, kind = gen_box(r, out)
         req = {"preds": preds}
-        if i % 8 == 7:
+        if i % 8 == 7 and not targeted:
             req = {"cpu_list": sorted(r.sample(range(1, out["ncpu"] + 1), r.randint(1, out["ncpu"])))}
             kind = "explicit_cpu_list"
         k = f"{kind}:{mode}:ncpu{out['ncpu']}"
